@@ -603,3 +603,70 @@ def c18(run, selftest=True):
         "all enums of 0..3 (quick) / 0..4 (thorough) variants over the four styles, a union), operational validator vs the documented table, exhaustively. "
         "Replayed on derived code: a compiled family of receivers (empty, each word, every pair, 40 random larger sets in quick / all 2048 in thorough; all 32 FromVariant forms) "
         "x all bodies - verdict and number of error leaves; the stand-alone ShapeSet API exhaustively (16 sets x 4 shapes). A case is one (word set, body).")
+
+
+# =====================================================================================================
+# C16 - magic fields and body conversion
+# =====================================================================================================
+
+BODY_CFG = """SPECIFICATION Spec
+CONSTANTS
+  MaxFields = %d
+  MaxVariants = %d
+  MaxVFields = 2
+  EMIT = TRUE
+INVARIANTS C16_Verdict C16_Entries C16_AllReported EmitDone
+CHECK_DEADLOCK FALSE
+"""
+
+
+def gen_body(run):
+    import subprocess
+    rs = os.path.join(vlib.HARNESS, "gen", "body_gen.rs")
+    p = subprocess.run(["python3", os.path.join(vlib.VERIF, "tools", "gen_body.py"), "--rs", rs], stdout=subprocess.PIPE, stderr=subprocess.PIPE, text=True)
+    if p.returncode != 0:
+        raise ToolError("gen_body failed: " + p.stderr[-2000:])
+    run.extra.update(json.loads(p.stdout.strip().splitlines()[-1]))
+
+
+@plan("C16")
+def c16(run, selftest=True):
+    q = run.tier == "quick"
+    gen_body(run)
+    gen_shapes(run)
+    gen_corpus(run, "all")
+    run.build()
+    res = run.tlc("Body", BODY_CFG % ((4, 2) if q else (5, 3)), "body", workers=4 if q else 8)
+    run.require_tlc_ok(res, "Body (all bodies within bounds)")
+    r = run.vh("replay-body", res["out"], binary=VHC, timeout=3000)
+    run.add_replay_result("body", r)
+    if selftest:
+        tag = '<<"REPLAY", '
+        first = None
+        with open(res["out"], errors="replace") as f:
+            for line in f:
+                if line.startswith(tag):
+                    case = json.loads(json.loads(line.strip()[len(tag):-2]))
+                    if len(case["expect"]["failures"]) >= 2:
+                        case["expect"]["failures"].pop()
+                        first = case
+                        break
+        if first is None:
+            raise ToolError("selftest(body): no case with two failures")
+        bad = run.path("body_selftest.out")
+        with open(bad, "w") as f:
+            f.write(tag + json.dumps(json.dumps(first)) + ">>\n")
+        r2 = run.vh("replay-body", bad, binary=VHC)
+        if r2.get("prop_mismatch", 0) == 0:
+            raise ToolError("selftest(body): a dropped expected failure was not detected")
+        run.notes.append("selftest replay-corruption (one expected member failure dropped): detected")
+    os.remove(res["out"])
+    run.assumptions = ["member failures are provoked by omitting a required field-level attribute of the harness's member receivers",
+                       "visibility, types, generics, discriminants and attributes are drawn from fixed pools per case; parts are compared as token strings (blanks and trailing commas aside)"]
+    return run.finish(
+        "model_checking",
+        "all bodies within bounds (unit / named / tuple structs with 0..3 (quick) / 0..5 (thorough) fields, enums of 0..2 / 0..3 variants of unit (with or without discriminant) / named / tuple style "
+        "with 1..2 fields, unions) x every assignment of failing members: TLC checks the conversion machine against the declarative verdict, entry order and set of reported failures; "
+        "each body is rendered with varying visibility / types / generics / where-clauses and fed to 63 FromDeriveInput receivers (every subset of ident / vis / generics / attrs / data, "
+        "generics as syn, ast, WithOriginal, SpannedValue, Result; data and attrs plain or with a custom converter) and each member to the 16 subsets of FromField / FromVariant / FromTypeParam magic fields; "
+        "every part is compared with the input's own. A case is one body.")
